@@ -55,6 +55,144 @@ def basic_codes(ctx):
             ctx.violation('basic-rank', 'stabilizer rank != n-k or logicals dependent', rep)
 
 
+def pauli_histories(ctx):
+    """Histories on ONE lattice-Pauli object per trial: operations interleaved with to_bsf() / operator() reads.
+    After every operation: to_bsf() == previous bsf XOR (the operation applied to a fresh Pauli), every site's
+    operator() letter agrees with the bsf bits, equality and copy() agree.  Model-free (implementation only)."""
+    from qecsim.models.planar import PlanarCode
+    from qecsim.models.toric import ToricCode
+    from qecsim.models.rotatedplanar import RotatedPlanarCode
+    from qecsim.models.rotatedtoric import RotatedToricCode
+    from qecsim.models.color import Color666Code
+    import itertools
+    rng = ctx.rng
+
+    def fam_planar(code):
+        mr, mc = code.bounds
+        idx = list(itertools.product(range(mr + 1), range(mc + 1)))
+        sites = [i for i in idx if code.is_site(i)]
+        plaqs = [i for i in idx if code.is_plaquette(i)]
+
+        def ops():
+            r = rng.random()
+            if r < 0.3:
+                o, i = rng.choice('XYZ'), rng.choice(sites)
+                return 'site %s %s' % (o, i), lambda p: p.site(o, i)
+            if r < 0.55:
+                i = rng.choice(plaqs)
+                return 'plaquette %s' % (i,), lambda p: p.plaquette(i)
+            if r < 0.8:
+                a = rng.choice(plaqs)
+                b = rng.choice([q for q in plaqs if code.is_primal(q) == code.is_primal(a)])
+                return 'path %s %s' % (a, b), lambda p: p.path(a, b)
+            nm = rng.choice(['logical_x', 'logical_z'])
+            return nm, lambda p: getattr(p, nm)()
+        return sites, ops
+
+    def fam_toric(code):
+        sites = list(itertools.product(*[range(d) for d in code.shape]))
+
+        def ops():
+            r = rng.random()
+            if r < 0.3:
+                o, i = rng.choice('XYZ'), rng.choice(sites)
+                return 'site %s %s' % (o, i), lambda p: p.site(o, i)
+            if r < 0.5:
+                i = rng.choice(sites)
+                return 'plaquette %s' % (i,), lambda p: p.plaquette(i)
+            if r < 0.7:
+                a = rng.choice(sites)
+                b = rng.choice([q for q in sites if q[0] == a[0]])
+                return 'path %s %s' % (a, b), lambda p: p.path(a, b)
+            nm = rng.choice(['logical_x1', 'logical_x2', 'logical_z1', 'logical_z2'])
+            return nm, lambda p: getattr(p, nm)()
+        return sites, ops
+
+    def fam_rot(code, toric):
+        if toric:
+            mx, my = code.bounds
+        else:
+            mx, my = code.site_bounds
+        sites = list(itertools.product(range(mx + 1), range(my + 1)))
+        plaqs = [tuple(i) for i in code._plaquette_indices]
+
+        def ops():
+            r = rng.random()
+            if r < 0.35:
+                o, i = rng.choice('XYZ'), rng.choice(sites)
+                return 'site %s %s' % (o, i), lambda p: p.site(o, i)
+            if r < 0.6:
+                i = rng.choice(plaqs)
+                return 'plaquette %s' % (i,), lambda p: p.plaquette(i)
+            if toric and r < 0.8:
+                a = rng.choice(plaqs)
+                b = rng.choice([q for q in plaqs if code.is_z_plaquette(q) == code.is_z_plaquette(a)])
+                return 'path %s %s' % (a, b), lambda p: p.path(a, b)
+            nm = rng.choice(['logical_x1', 'logical_x2', 'logical_z1', 'logical_z2'] if toric else ['logical_x', 'logical_z'])
+            return nm, lambda p: getattr(p, nm)()
+        return sites, ops
+
+    def fam_color(code):
+        idx = list(itertools.product(range(code.bound + 1), repeat=2))
+        sites = [i for i in idx if code.is_in_bounds(i) and code.is_site(i)]
+        plaqs = [tuple(i) for i in code._plaquette_indices]
+
+        def ops():
+            r = rng.random()
+            if r < 0.4:
+                o, i = rng.choice('XYZ'), rng.choice(sites)
+                return 'site %s %s' % (o, i), lambda p: p.site(o, i)
+            if r < 0.75:
+                o, i = rng.choice('XYZ'), rng.choice(plaqs)
+                return 'plaquette %s %s' % (o, i), lambda p: p.plaquette(o, i)
+            nm = rng.choice(['logical_x', 'logical_z'])
+            return nm, lambda p: getattr(p, nm)()
+        return sites, ops
+
+    cases = [(PlanarCode(3, 4), fam_planar), (PlanarCode(2, 2), fam_planar), (ToricCode(2, 2), fam_toric),
+             (ToricCode(3, 4), fam_toric), (RotatedPlanarCode(3, 4), lambda c: fam_rot(c, False)),
+             (RotatedPlanarCode(4, 5), lambda c: fam_rot(c, False)), (RotatedToricCode(2, 4), lambda c: fam_rot(c, True)),
+             (RotatedToricCode(4, 4), lambda c: fam_rot(c, True)), (Color666Code(3), fam_color), (Color666Code(5), fam_color)]
+    LET = {(0, 0): 'I', (1, 0): 'X', (0, 1): 'Z', (1, 1): 'Y'}
+    for code, fam in cases:
+        sites, ops = fam(code)
+        n = code.n_k_d[0]
+        pos = {}
+        for s_ in sites:
+            b = code.new_pauli().site('X', s_).to_bsf()
+            nz = np.flatnonzero(b)
+            pos[s_] = int(nz[0]) if len(nz) == 1 else None
+        for trial in range(ctx.pick(12, 60)):
+            p = code.new_pauli()
+            cur = p.to_bsf().copy() if rng.random() < 0.7 else np.zeros(2 * n, dtype=int)
+            hist = []
+            for step in range(rng.randint(2, 8)):
+                name, f = ops()
+                hist.append(name)
+                delta = f(code.new_pauli()).to_bsf()
+                f(p)
+                cur = cur ^ delta
+                reads = rng.random() < 0.8          # sometimes several operations happen between reads
+                if not reads and step < 7:
+                    continue
+                got = p.to_bsf()
+                ctx.count(('pauli-history', repr(code), trial, step), True, 'pauli-history',
+                          {'code': repr(code), 'history': list(hist)} if len(ctx.samples) < 7 else None)
+                rep = {'code': repr(code), 'history': list(hist), 'to_bsf': rowsstr([got]), 'expected': rowsstr([cur])}
+                if not np.array_equal(got, cur):
+                    ctx.violation('pauli-bsf-history', 'to_bsf() after a sequence of operations is not the XOR of the '
+                                  'operations (stale or inconsistent binary symplectic form)', rep)
+                    break
+                bad = [s_ for s_ in sites if pos[s_] is not None and
+                       p.operator(s_) != LET[(int(got[pos[s_]]), int(got[n + pos[s_]]))]]
+                if bad:
+                    ctx.violation('pauli-site-access', 'operator(index) disagrees with the bsf', dict(rep, sites=bad[:4]))
+                    break
+                if not (p == code.new_pauli(got.copy())) or not np.array_equal(p.copy().to_bsf(), got):
+                    ctx.violation('pauli-eq-copy', 'equality / copy disagree with the bsf', rep)
+                    break
+
+
 def run(ctx):
     ctx.rule = ('per family: every size up to the tier bound (non-square, minimal, odd/even) compared row by row with '
                 'the Gallina model; constructor argument stream; validity, GF(2) ranks, n/k vs shapes and flatten '
@@ -63,6 +201,7 @@ def run(ctx):
     lat_common.prepare(ctx)
     fams = lat_common.run_families(ctx, 'check_c07')
     basic_codes(ctx)
+    pauli_histories(ctx)
     ctx.extra['families'] = fams + ['basic']
 
 
